@@ -260,31 +260,98 @@ def rule_decrement(check, cm, rule):
 
 def rule_pop(check, cm, rule):
   """pop/drain return all items of the removed dict, sorted by timestamp."""
+  from ..paths import PathExec
+  from ..symeval import show
+  cx = cm.cx
   for name in ('pop', 'drain_metric'):
     m = cm.methods.get(name)
     if m is None:
       rule.cannot_decide('%s.%s not found' % (cm.cls.name, name))
       continue
-    al = cm.aliases[name]
-    for r in [n for n in walk_no_nested(m.node, include_self=False) if isinstance(n, ast.Return) and n.value is not None]:
-      v = r.value
-      if isinstance(v, ast.Tuple) and len(v.elts) == 2:
-        if isinstance(v.elts[0], ast.Constant) and v.elts[0].value is None:
-          continue
-        v = v.elts[1]
-      if isinstance(v, ast.Call) and isinstance(v.func, ast.Attribute) and cm.is_self(v.func.value) and v.func.attr == 'pop':
-        rule.ok('%s() returns pop()\'s batch unchanged' % name, m.loc(r))
+    SELF = ('param', m.params[0]) if m.params else ('param', 'self')
+
+    def removed(t):
+      """the per-metric dict taken out of the cache: dict.pop(self, k) / defaultdict.pop(self, k) / super().pop(k)"""
+      if not isinstance(t, tuple):
+        return False
+      if t[0] == 'call' and isinstance(t[1], str) and t[1].endswith('.pop') and len(t) >= 3 and t[2] == SELF:
+        return True
+      return t[0] == 'meth' and t[1] == 'pop' and isinstance(t[2], tuple) and t[2][0] == 'call' and t[2][1] == 'super'
+
+    def verdict(t):
+      if isinstance(t, tuple) and t[0] == 'meth' and t[1] == 'pop' and t[2] == SELF:
+        return 'ok'                    # delegates to pop(), judged there
+      if not (isinstance(t, tuple) and t[0] == 'call' and t[1] == 'sorted' and len(t) >= 3):
+        return 'not sorted(...)'
+      a = t[2]
+      if isinstance(a, tuple) and a[0] == 'call' and a[1] == 'list' and len(a) == 3:
+        a = a[2]
+      if not (isinstance(a, tuple) and a[0] == 'meth' and a[1] == 'items' and len(a) == 3 and removed(a[2])):
+        return 'argument is not <removed dict>.items()'
+      for kw in t[3:]:
+        if not (isinstance(kw, tuple) and kw[0] == 'kw'):
+          return 'unexpected argument `%s`' % show(kw)
+        if kw[1] == 'reverse' and kw[2] != ('const', False):
+          return 'reverse order'
+        if kw[1] == 'key' and not _first_component_key(kw[2], m.module):
+          return 'unknown-key'
+      return 'ok'
+    px = PathExec(cx, m, unroll=1, follow_exceptions=False)
+    g = px.g
+    rets = {n for n in g.nodes if n.kind == 'stmt' and isinstance(n.ast, ast.Return) and n.ast.value is not None}
+    judged = set()
+    for hit in px.run(rets):
+      r = hit.node.ast
+      t = hit.term(r.value, px)
+      if isinstance(t, tuple) and t[0] == 'tuple' and len(t) == 3:
+        if t[1] == ('const', None):
+          continue                     # "nothing to drain"
+        t = t[2]
+      v = verdict(t)
+      if (id(r), v) in judged:
         continue
-      cands = [x for x in resolve_copies(m, v)] if isinstance(v, ast.Name) and al.get(v.id) is None else [v]
-      verdicts = [_sorted_items(x, al, m) if isinstance(x, ast.AST) else 'not sorted(...)' for x in cands]
-      verdict = 'ok' if verdicts and all(x == 'ok' for x in verdicts) else next((x for x in verdicts if x != 'ok'), 'not sorted(...)')
-      if verdict == 'ok':
+      judged.add((id(r), v))
+      if v == 'ok':
         rule.ok('%s() returns sorted(<removed dict>.items()) by timestamp' % name, m.loc(r))
-      elif verdict == 'unknown-key':
+      elif v == 'unknown-key':
         rule.cannot_decide('unrecognised sort idiom in %s(): %s' % (name, norm(r)))
       else:
         rule.violate('batch shape', m, r, '%s() does not return every item of the removed per-metric dict sorted by '
-                     'timestamp: `%s` (%s)' % (name, short(r), verdict))
+                     'timestamp: `%s` evaluates to `%s` (%s)' % (name, short(r), show(t)[:160], v))
+    if px.truncated:
+      rule.cannot_decide('too many paths through %s()' % name)
+
+
+def _first_component_key(t, module):
+  """the sort key is `item -> item[0]` (the timestamp of a (timestamp, value) pair)"""
+  from ..symeval import SymEval, canon
+  if not isinstance(t, tuple):
+    return False
+  if t[0] == 'call' and t[1] in ('itemgetter', 'operator.itemgetter') and t[2:] == (('const', 0),):
+    return True
+  se = SymEval(None)
+  if t[0] == 'opaque' and isinstance(t[1], str) and t[1].startswith('lambda'):
+    try:
+      src = ast.parse(t[1], mode='eval').body
+    except SyntaxError:
+      return False
+    params = [a.arg for a in src.args.args]
+    if len(params) != 1:
+      return False
+    rets = [se.ev(src.body, {params[0]: ('param', params[0])}, None)]
+  elif t[0] in ('param', 'global') and isinstance(t[1], str):
+    fs = module.functions.get(t[1])
+    if not fs or len(fs[0].params) != 1:
+      return False
+    f = fs[0]
+    params = f.params
+    rec = []
+    se.run(f.body, {params[0]: ('param', params[0])}, f, lambda c: None, rec)
+    rets = [r[2][0] for r in rec if r[0] == '<return>']
+  else:
+    return False
+  want = ('field', ('param', params[0]), 0)
+  return bool(rets) and all(canon(r) == want or r == ('sub', ('param', params[0]), ('const', 0)) for r in rets)
 
 
 def _sorted_items(v, aliases, m=None):
@@ -376,19 +443,33 @@ def rule_query_live(check, cm, rule):
       (x[0] == 'call' and isinstance(x[1], str) and x[1].startswith(SELF[1] + '.') and x[1].split('.')[1] not in own)))
   # the values put into the response under datapoints= / datapointsByMetric[...]
   sites = []
-  for n in g.nodes:
-    if n.kind != 'stmt' or n.ast is None:
-      continue
-    for c in g.calls(n):
-      if isinstance(c.func, ast.Name) and c.func.id == 'dict':
-        for kw in c.keywords:
-          if kw.arg == 'datapoints':
-            sites.append((n, kw.value, 'cache-query'))
-          elif kw.arg == 'datapointsByMetric':
-            sites.append((n, kw.value, 'cache-query-bulk*'))
+
+  def entries(x):
+    """(key, value ast) of dict(k=v) / {'k': v} / d['k'] = v"""
+    if isinstance(x, ast.Call) and isinstance(x.func, ast.Name) and x.func.id == 'dict':
+      return [(kw.arg, kw.value) for kw in x.keywords if kw.arg]
+    if isinstance(x, ast.Dict):
+      return [(k.value, v) for k, v in zip(x.keys, x.values) if isinstance(k, ast.Constant) and isinstance(k.value, str)]
+    return []
+  bulk_names = set()
+  stmts = [n for n in g.nodes if n.kind == 'stmt' and n.ast is not None]
+  for n in stmts:
+    found = [kv for x in walk_no_nested(n.ast) for kv in entries(x)]
     if isinstance(n.ast, ast.Assign):
       for t in n.ast.targets:
-        if isinstance(t, ast.Subscript) and isinstance(t.value, ast.Name) and 'datapointsByMetric' in t.value.id:
+        if isinstance(t, ast.Subscript) and isinstance(t.slice, ast.Constant) and isinstance(t.slice.value, str):
+          found.append((t.slice.value, n.ast.value))
+    for k, v in found:
+      if k == 'datapoints':
+        sites.append((n, v, 'cache-query'))
+      elif k == 'datapointsByMetric':
+        sites.append((n, v, 'cache-query-bulk*'))
+        if isinstance(v, ast.Name):
+          bulk_names.add(v.id)
+  for n in stmts:
+    if isinstance(n.ast, ast.Assign):
+      for t in n.ast.targets:
+        if isinstance(t, ast.Subscript) and isinstance(t.value, ast.Name) and t.value.id in bulk_names:
           sites.append((n, n.ast.value, 'cache-query-bulk'))
   if not sites:
     rule.cannot_decide('no datapoints= / datapointsByMetric[...] value found in CacheManagementHandler.stringReceived')
